@@ -2,6 +2,7 @@
 import random
 from common import *
 from engine import run_sim_check
+import schedcheck
 
 MODULE = "Properties_C10"
 THEOREMS = ["pool_limit", "pool_refuse_unchanged", "pool_grants_below_limit", "pool_unlimited_never_refuses",
@@ -185,7 +186,7 @@ def distribution(cases):
 
 
 SPEC = {
-    "id": "C10", "module": MODULE, "theorems": THEOREMS, "harness": "sim",
+    "id": "C10", "extra": schedcheck.extra_stage(("pool",), [schedcheck.mon_pool]), "module": MODULE, "theorems": THEOREMS, "harness": "sim",
     "generate": generate, "project": project, "nontrivial_key": nontrivial_key, "monitor": monitor_full,
     "distribution": distribution,
     "rule": "random Get/release/resize histories on BufferPool(N, reserve) with N in {0,1,2,3,5}, incl. running past the limit and "
